@@ -145,10 +145,19 @@ struct Conv {
         if (auto * X = dyn_cast<LambdaExpr>(E)) {
             int id = lambdas.size();
             lambdas.push_back(nullptr);
-            json::Value b = stmt(X->getBody());
+            // a generic lambda's own body is a template pattern (unresolved names): take its first instantiation instead
+            const Stmt * LB = X->getBody();
+            bool fromInst = false;
+            if (X->getLambdaClass() && X->getLambdaClass()->isGenericLambda())
+                if (auto * FTD = X->getDependentCallOperator())
+                    for (auto * Sp : FTD->specializations())
+                        if (Sp->doesThisDeclarationHaveABody() && Sp->getBody()) { LB = Sp->getBody(); fromInst = true; break; }
+            json::Value b = stmt(const_cast<Stmt *>(LB));
+            json::Array lps;
+            if (auto * CO = X->getCallOperator()) for (auto * P : CO->parameters()) lps.push_back(P->getNameAsString());
             json::Array caps;
             for (auto & Cp : X->captures()) if (Cp.capturesVariable()) caps.push_back(Cp.getCapturedVar()->getNameAsString());
-            lambdas[id] = json::Object{{"id", id}, {"line", line(X->getBeginLoc())}, {"body", std::move(b)}, {"caps", std::move(caps)}, {"op", mangled(X->getCallOperator())}};
+            lambdas[id] = json::Object{{"id", id}, {"line", line(X->getBeginLoc())}, {"body", std::move(b)}, {"caps", std::move(caps)}, {"params", std::move(lps)}, {"inst", fromInst}, {"op", mangled(X->getCallOperator())}};
             return json::Object{{"k", "lambda"}, {"id", id}};
         }
         if (auto * X = dyn_cast<InitListExpr>(E)) {
